@@ -59,6 +59,10 @@ type c08Scenario struct {
 	Threads []c08Thread   `json:"threads"`
 	Kills   []c08Kill     `json:"kills,omitempty"`
 	Horizon time.Duration `json:"horizon_ns"`
+	// Gap > 0: the child processes run under `strace -e inject=ftruncate:delay_exit=Gap`, i.e. on
+	// storage so slow that a heartbeat leaves the lock file empty for Gap between truncate and write
+	Gap time.Duration `json:"gap_ns,omitempty"`
+	Tol time.Duration `json:"tol_ns,omitempty"` // time tolerance of the comparison, default c08Tol
 }
 
 type c08ThreadObs struct {
@@ -265,6 +269,10 @@ func c08Run(tmproot string, sc c08Scenario) (*c08Result, error) {
 		}
 		b, _ := json.Marshal(sp)
 		cmd := exec.Command(os.Args[0], "C08", "child", "0", dir, string(b))
+		if sc.Gap > 0 {
+			cmd = exec.Command("strace", "-f", "-o", "/dev/null", "-e", "trace=ftruncate", "-e",
+				fmt.Sprintf("inject=ftruncate:delay_exit=%d", sc.Gap.Microseconds()), os.Args[0], "C08", "child", "0", dir, string(b))
+		}
 		pr, err := cmd.StdoutPipe()
 		if err != nil {
 			endAll()
@@ -457,7 +465,11 @@ func c08Emit(w *emit.Writer, res *c08Result) {
 		if res.Early {
 			mh = hz + int64(2*time.Second)
 		}
-		e.Z(mh).Z(int64(c08Tol)).Z(int64(c08Jit)).Len(len(obs))
+		tol := c08Tol
+		if sc.Tol > 0 {
+			tol = sc.Tol
+		}
+		e.Z(mh).Z(int64(tol)).Z(int64(c08Jit)).Z(int64(sc.Gap)).Len(len(obs))
 		for _, o := range obs {
 			e.Int(o.Tid).Int(o.Outcome).Z(o.Ret)
 		}
@@ -584,6 +596,13 @@ func c08Scenarios(tier string) []c08Scenario {
 		{Name: "empty-file-then-release", Class: "empty-prefile", Pre: c08PreFile{Kind: "empty"},
 			Threads: []c08Thread{{Tid: 0, Name: n, StartAt: c08ms(100), HoldFor: c08ms(1000), CancelAt: long}, {Tid: 1, Name: n, StartAt: c08ms(300), HoldFor: c08ms(100), CancelAt: long}},
 			Horizon: c08ms(5000)},
+	}
+	if _, err := exec.LookPath("strace"); err == nil {
+		// slow storage: every heartbeat of the holder leaves the file empty for 1.3 s; the waiter sees
+		// about five empty reads at each of two heartbeats, with successful reads in between
+		scs = append(scs, c08Scenario{Name: "slow-truncate-live-holder", Class: "slow-storage-empty-count", Gap: c08ms(1300), Tol: c08ms(1200),
+			Threads: []c08Thread{{Tid: 0, Pid: 1, Name: n, StartAt: c08ms(250), HoldFor: c08ms(13250)}, {Tid: 1, Name: n, StartAt: c08ms(500), HoldFor: c08ms(200), CancelAt: long}},
+			Horizon: c08ms(16000)})
 	}
 	if tier == "thorough" {
 		scs = append(scs,
